@@ -23,6 +23,7 @@ from __future__ import annotations
 from .harness import Spec
 
 SETUP = '''
+import functools
 import inspect
 from beartype.roar import BeartypeCallHintReturnViolation, BeartypeCallHintParamViolation
 LAST = ['']
@@ -60,7 +61,7 @@ class Suspend:
 
 # ---- scripted originals.  script: list of (kind, payload); log: what the body observes
 def gen_body(script, log):
-    def original(*a) -> ANN:
+    def original(*a, **kw) -> ANN:
         x = a[-1]
         log.append(('start', x))
         try:
@@ -85,7 +86,7 @@ def gen_body(script, log):
 
 
 def agen_body(script, log, cleanup=False):
-    async def original(*a) -> ANN:
+    async def original(*a, **kw) -> ANN:
         x = a[-1]
         log.append(('start', x))
         try:
@@ -113,7 +114,7 @@ def agen_body(script, log, cleanup=False):
 
 
 def coro_body(script, log):
-    async def original(*a) -> ANN:
+    async def original(*a, **kw) -> ANN:
         x = a[-1]
         log.append(('start', x))
         try:
@@ -264,6 +265,14 @@ def compare(kind, script, ops, cleanup=False):
         inner_w = make(script, log_w)
     if HOST == 'function':
         wrapped = DEC(inner_w)
+    elif HOST == 'wraps':
+        # the scripted original is itself a functools.wraps(*args, **kwargs) closure around a *plain* function
+        # (a generator / coroutine adapter over something else): the kind of the decorated callable counts
+        def callee(x: int) -> ANN:
+            return None
+        plain = functools.wraps(callee)(plain)
+        inner_w = functools.wraps(callee)(inner_w)
+        wrapped = DEC(inner_w)
     else:
         # the callable is a method (plain / static) of a class that is decorated as a whole
         member = (lambda f: staticmethod(f)) if HOST == 'static' else (lambda f: f)
@@ -280,7 +289,7 @@ def compare(kind, script, ops, cleanup=False):
         if probe(plain) != probe(wrapped):
             LAST[0] = f'{probe.__name__}: original {probe(plain)}, decorated {probe(wrapped)}'
             return False
-    if HOST == 'function' and getattr(wrapped, '__wrapped__', None) is not inner_w:
+    if HOST in ('function', 'wraps') and getattr(wrapped, '__wrapped__', None) is not inner_w:
         LAST[0] = 'decorated callable does not expose the original as __wrapped__'
         return False
     obs_p = drive(plain, ops, log_p)
@@ -346,7 +355,8 @@ def specs(tier, seed=0):
         for kind in ('gen', 'agen', 'coro'):
             out.append(spec(kind, 2, 2, {}, 'default'))
         out += [spec('gen', 2, 2, {}, 'default', 'iterator', 'method'), spec('agen', 2, 2, {}, 'default', 'iterator', 'static'),
-                spec('coro', 2, 2, {}, 'default', 'optint', 'method')]
+                spec('coro', 2, 2, {}, 'default', 'optint', 'method'), spec('gen', 2, 2, {}, 'default', 'iterable', 'wraps'),
+                spec('coro', 2, 2, {}, 'default', 'int', 'wraps')]
         return out
     for kind in ('gen', 'agen', 'coro'):
         out.append(spec(kind, 3, 2, {}, 'default'))
@@ -354,6 +364,6 @@ def specs(tier, seed=0):
         out.append(spec(kind, 2, 2, {'is_random': False}, 'nonrandom'))
         out.append(spec(kind, 2, 2, {'violation_type': 'VerifError'}, 'exc'))
         for ann in ANNS[kind]:
-            for host in ('function', 'method', 'static'):
+            for host in ('function', 'method', 'static', 'wraps'):
                 out.append(spec(kind, 2, 2, {}, 'default', ann, host))
     return out
